@@ -164,7 +164,58 @@ func (n cNum) yaml() string {
 	return strconv.FormatInt(n.V, 10)
 }
 
-type yw struct{ sb strings.Builder }
+// c16RenderOpts: exotic YAML forms of a configuration (harness/c16_holder.go). None of them is part of the token
+// encoding of the AST: the case line carries them in its integer arguments / its shape argument.
+type c16RenderOpts struct {
+	RawAt      int    // 1-based number, in rendering order, of the typed component written as the flow text RawShape (0: none)
+	RawShape   string //
+	GhostAt    int    // 1-based number of the list position / absent section at which the null-like item GhostShape is written
+	GhostShape string // (yaml.v3 drops a null item from a list and leaves a holder with a null value untouched)
+	DupAt      int    // 1-based number of the transform that gets an anchor; its next sibling - an identical copy in the AST - is written as an alias to it
+}
+
+func (o c16RenderOpts) active() bool { return o.RawAt != 0 || o.GhostAt != 0 || o.DupAt != 0 }
+
+// c16AnchorPrelude is the "anchors" section of a file rendered with options: the anchors the shapes may refer to.
+const c16AnchorPrelude = `anchors:
+  - &c16nul ~
+  - &c16emp {}
+  - &c16eseq []
+  - &c16str foo
+  - &c16unesc {type: unescape, key: log}
+  - &c16typeonly {type: unescape}
+  - &c16keylog {key: log}
+  - &c16tname unescape
+`
+
+type yw struct {
+	sb         strings.Builder
+	o          c16RenderOpts
+	comp       int  // typed components seen
+	pos        int  // ghost positions seen
+	tf         int  // transforms seen
+	dupPending bool // the transform just written got the anchor: the next one of the same list is its alias
+}
+
+// component: true if this typed component is the one to be written as the raw shape (head: "- " or "key: ")
+func (w *yw) component(indent int, head string) bool {
+	w.comp++
+	if w.comp == w.o.RawAt {
+		w.line(indent, "%s%s", head, w.o.RawShape)
+		return true
+	}
+	return false
+}
+
+// ghost: a position of a list at which a null-like item may be written
+func (w *yw) ghost(indent int) bool {
+	w.pos++
+	if w.pos == w.o.GhostAt {
+		w.line(indent, "- %s", w.o.GhostShape)
+		return true
+	}
+	return false
+}
 
 func (w *yw) line(indent int, format string, a ...interface{}) {
 	w.sb.WriteString(strings.Repeat(" ", indent))
@@ -206,13 +257,28 @@ func (w *yw) pairsMap(indent int, key string, pairs [][2]string) {
 
 func (w *yw) steps(indent int, key string, steps []*cTransform, damageFirst bool) {
 	if len(steps) == 0 {
+		w.pos++
+		if w.pos == w.o.GhostAt {
+			w.line(indent, "%s:", key)
+			w.line(indent+2, "- %s", w.o.GhostShape)
+			return
+		}
 		w.line(indent, "%s: []", key)
 		return
 	}
 	w.line(indent, "%s:", key)
+	w.dupPending = false
 	for i, t := range steps {
+		w.ghost(indent + 2)
+		if w.dupPending {
+			w.dupPending = false
+			w.line(indent+2, "- *c16dup")
+			continue
+		}
 		w.transform(indent+2, t, damageFirst && i == 0)
 	}
+	w.dupPending = false
+	w.ghost(indent + 2)
 }
 
 func typeName(t string) (name string, present bool) {
@@ -229,11 +295,24 @@ func typeName(t string) (name string, present bool) {
 func (w *yw) transform(indent int, t *cTransform, bogusKey bool) {
 	name, present := typeName(t.Type)
 	in := indent + 2
-	if present {
+	if w.component(indent, "- ") {
+		return
+	}
+	w.tf++
+	anchored := w.tf == w.o.DupAt
+	if anchored {
+		w.line(indent, "- &c16dup")
+		if present {
+			w.line(in, "type: %s", yamlStr(name))
+		} else {
+			w.line(in, "key: %s", yamlStr(t.Key))
+		}
+	} else if present {
 		w.line(indent, "- type: %s", yamlStr(name))
 	} else {
 		w.line(indent, "- key: %s", yamlStr(t.Key))
 	}
+	defer func() { w.dupPending = anchored }()
 	if bogusKey {
 		w.line(in, "c16BogusKey: 1")
 	}
@@ -324,7 +403,17 @@ func (b cBig) yamlDur() string {
 // Render produces the configuration file.  rootDir replaces nothing: buffer root paths are
 // written as they are in the AST (the generator puts them under a scratch directory).
 func (c *cConfig) Render() string {
-	w := &yw{}
+	s, _ := c.RenderWith(c16RenderOpts{})
+	return s
+}
+
+// RenderWith renders the file with one exotic form; it also returns the writer for its counters (number of typed
+// components, ghost positions, transforms).
+func (c *cConfig) RenderWith(o c16RenderOpts) (string, *yw) {
+	w := &yw{o: o}
+	if o.active() {
+		w.sb.WriteString(c16AnchorPrelude)
+	}
 	dmg := c.Damage
 	if dmg == "top-unknown-key" {
 		w.line(0, "c16BogusKey: 1")
@@ -340,10 +429,20 @@ func (c *cConfig) Render() string {
 		w.line(2, "c16BogusKey: 1")
 	}
 	if len(c.Inputs) == 0 {
-		w.line(0, "inputs: []")
+		w.pos++
+		if w.pos == w.o.GhostAt {
+			w.line(0, "inputs:")
+			w.line(2, "- %s", w.o.GhostShape)
+		} else {
+			w.line(0, "inputs: []")
+		}
 	} else {
 		w.line(0, "inputs:")
 		for i, in := range c.Inputs {
+			w.ghost(2)
+			if w.component(2, "- ") {
+				continue
+			}
 			name, present := typeName(in.Type)
 			if present {
 				w.line(2, "- type: %s", yamlStr(name))
@@ -359,8 +458,16 @@ func (c *cConfig) Render() string {
 				w.steps(4, "extractions", in.Extractions, dmg == "extraction-unknown-key")
 			}
 		}
+		w.ghost(2)
 	}
-	if c.Orch.Type != "-" {
+	if c.Orch.Type == "-" {
+		w.pos++
+		if w.pos == w.o.GhostAt {
+			w.line(0, "orchestration: %s", w.o.GhostShape)
+		}
+	} else if w.component(0, "orchestration: ") {
+		// written as the raw shape
+	} else {
 		w.line(0, "orchestration:")
 		name, present := typeName(c.Orch.Type)
 		if present {
@@ -400,7 +507,14 @@ func (c *cConfig) Render() string {
 			if dmg == "pair-unknown-key" && i == 0 {
 				w.line(4, "c16BogusKey: 1")
 			}
-			if p.Buf.Type != "-" {
+			if p.Buf.Type == "-" {
+				w.pos++
+				if w.pos == w.o.GhostAt {
+					w.line(4, "buffer: %s", w.o.GhostShape)
+				}
+			} else if w.component(4, "buffer: ") {
+				// written as the raw shape
+			} else {
 				w.line(4, "buffer:")
 				name, present := typeName(p.Buf.Type)
 				if present {
@@ -413,7 +527,14 @@ func (c *cConfig) Render() string {
 					w.line(6, "maxBufSize: %s", p.Buf.Size.yamlSize())
 				}
 			}
-			if p.Out.Type != "-" {
+			if p.Out.Type == "-" {
+				w.pos++
+				if w.pos == w.o.GhostAt {
+					w.line(4, "output: %s", w.o.GhostShape)
+				}
+			} else if w.component(4, "output: ") {
+				// written as the raw shape
+			} else {
 				w.line(4, "output:")
 				name, present := typeName(p.Out.Type)
 				if present {
@@ -433,11 +554,21 @@ func (c *cConfig) Render() string {
 						w.line(8, "rewriteFields:")
 						for _, rw := range p.Out.Rewrites {
 							if len(rw.Rewriters) == 0 {
+								w.pos++
+								if w.pos == w.o.GhostAt {
+									w.line(10, "%s:", yamlStr(rw.Field))
+									w.line(12, "- %s", w.o.GhostShape)
+									continue
+								}
 								w.line(10, "%s: []", yamlStr(rw.Field))
 								continue
 							}
 							w.line(10, "%s:", yamlStr(rw.Field))
 							for _, r := range rw.Rewriters {
+								w.ghost(12)
+								if w.component(12, "- ") {
+									continue
+								}
 								rn, rp := typeName(r.Type)
 								if rp {
 									w.line(12, "- type: %s", yamlStr(rn))
@@ -448,6 +579,7 @@ func (c *cConfig) Render() string {
 									w.line(12, "- field: %s", yamlStr(r.Field))
 								}
 							}
+							w.ghost(12)
 						}
 					}
 					w.line(6, "messageMode: %s", yamlStr(p.Out.Mode))
@@ -470,7 +602,7 @@ func (c *cConfig) Render() string {
 			}
 		}
 	}
-	return w.sb.String()
+	return w.sb.String(), w
 }
 
 // ---------------------------------------------------------------- token encoding
